@@ -168,6 +168,43 @@ def run(tier):
                     idx = (hi * 7 + inst * 13 + int(a['k'][1]) * 5) % len(lst)
                     calls.append((lst[idx], a['ef']))
                 histories.append(calls)
+        # related keys: two keys of the same cache that share a component (same schema file under two validator
+        # classes, same document against two schemas, two documents against one schema, './json/x' vs 'json/x'):
+        # a key that drops or normalises away an argument is only visible on such pairs
+        related = []
+        by_file = {}
+        for c in sv:
+            by_file.setdefault(c[1], []).append(c)
+        for f, lst in sorted(by_file.items()):
+            for a in lst:
+                for b in lst:
+                    if a != b:
+                        related.append((a, b))
+        by_doc, by_schema = {}, {}
+        for c in va:
+            by_doc.setdefault(c[1], []).append(c)
+            by_schema.setdefault(c[2], []).append(c)
+        for grp in list(by_doc.values()) + list(by_schema.values()):
+            diff = [(a, b) for a in grp for b in grp if a != b and F(a, False) != F(b, False)]
+            same = [(a, b) for a in grp for b in grp if a != b and F(a, False) == F(b, False)]
+            related += diff[:6 if quick else 40] + same[:2 if quick else 10]
+        for a, b in related:
+            for ef1 in (False, True):
+                for ef2 in (False, True):
+                    histories.append([(a, ef1), (b, ef2)])
+                    histories.append([(a, ef1), (b, ef2), (a, ef2)])
+        n_related = len(related)
+        # the same file under a different spelling of its path
+        for c in (sv + va)[::5 if quick else 1]:
+            alt = (c[0], './' + c[1], c[2]) if c[0] == 'sv' else (c[0], './' + c[1], './' + c[2])
+            alt2 = (c[0], c[1], './' + c[2]) if c[0] == 'va' else None
+            for x in (alt, alt2):
+                if x is None:
+                    continue
+                fresh[(key_id(x), x[0], False)] = isolated(_fresh_one, (x, False))
+                fresh[(key_id(x), x[0], True)] = isolated(_fresh_one, (x, True))
+                histories.append([(c, False), (x, False), (x, True)])
+                histories.append([(x, True), (c, True), (c, False)])
         nlong = 60 if quick else 500
         for i in range(nlong):
             n = rng.randint(25, 60)
@@ -188,7 +225,7 @@ def run(tier):
                     evictions += 1
             traces.append({'calls': recs})
         rep.count('evaluations', sum(len(h) for h in histories))
-        rep.setcov('histories', dict(from_tlc=len(hists) * ninst, long_random=nlong + 2, steps_at_cache_limit=evictions))
+        rep.setcov('histories', dict(from_tlc=len(hists) * ninst, related_key_pairs=n_related, long_random=nlong + 2, steps_at_cache_limit=evictions))
         if evictions == 0:
             raise MachineryError('vacuity guard: the cache limit was never reached')
         # (c) TLC validates
